@@ -165,6 +165,19 @@ example : (match find exH 12
 example : find exH 6 [.cat (.atom 0 (.nav "a" .consume)) (.atom 1 (.nav "r" .tilde))] 1 ["y"] none
     = .found ⟨2, [], [3]⟩ ∧ proxyPath ⟨2, [], [3]⟩ = [3, 2] := by decide
 
+/-- `a.a.(..)`, name `y.x`: the last step is not a name step and returns to an object that is
+already on the named path (3 → 4 → back to 3); the target is appended all the same — the test is
+"is the last entry the target", not "does the target occur in the path" -/
+example : find exH 8 [.cat (.atom 0 (.nav "a" .consume)) (.cat (.atom 1 (.nav "a" .consume))
+      (.grp 2 (.grp 3 (.atom 4 (.dots 2)))))] 0 ["y", "x"] none = .found ⟨3, [], [3, 4]⟩ ∧
+    proxyPath ⟨3, [], [3, 4]⟩ = [3, 4, 3] := by decide
+
+/-- `a.a.r`, name `y.x.y`: the named objects repeat (reference cycle 3 → 4 → 3) and the last
+step is a name step; the path already ends in the target and is not extended -/
+example : find exH 8 [.cat (.atom 0 (.nav "a" .consume)) (.cat (.atom 1 (.nav "a" .consume))
+      (.atom 2 (.nav "r" .consume)))] 0 ["y", "x", "y"] none = .found ⟨3, [], [3, 4, 3]⟩ ∧
+    proxyPath ⟨3, [], [3, 4, 3]⟩ = [3, 4, 3] := by decide
+
 example : ([E.cat (.star 0 (.grp 1 (.alt (.atom 2 (.nav "a" .tilde)) (.atom 3 (.nav "r" .tilde)))))
       (.atom 4 (.nav "a" .consume))].flatMap E.ids).Nodup := by decide
 
